@@ -884,6 +884,12 @@ fn gen_loco_sim(r: &mut Rng, n: usize) -> LocomotiveSimulation {
         3 | 4 => gen_loco(r, false),
         _ => gen_loco(r, true),
     };
+    // half of the originals carry populated `skip` caches (as objects built by `Generator::new` /
+    // `ElectricDrivetrain::new` do): the reloaded copy starts with empty ones
+    let mut loco = loco;
+    if r.chance(0.5) {
+        loco.warm();
+    }
     let pr = rating(&loco);
     let lo = if is_bel(&loco) { -0.2 * pr } else { 0.0 };
     let pt = gen_power_trace(r, n, lo, 0.35 * pr, false);
@@ -898,6 +904,9 @@ fn gen_consist_any(r: &mut Rng) -> Consist {
             let mut c = gen_consist(r, 4);
             if r.chance(0.3) {
                 c.set_assert_limits(false);
+            }
+            if r.chance(0.5) {
+                c.warm();
             }
             c
         }
@@ -980,7 +989,11 @@ fn gen_train_consist(r: &mut Rng) -> Consist {
         })
         .collect();
     let pdct = if r.chance(0.5) { PowerDistributionControlType::Proportional(Proportional) } else { PowerDistributionControlType::RESGreedy(RESGreedy) };
-    Consist::new(locos, None, pdct)
+    let mut c = Consist::new(locos, None, pdct);
+    if r.chance(0.5) {
+        c.warm();
+    }
+    c
 }
 
 fn train_state(tp: &TrainParams) -> TrainState {
